@@ -1,7 +1,7 @@
 CONSTANT Universes = {"data", "obj"}
 CONSTANT Negatives = TRUE
 CONSTANT LayoutSel = {"flat", "child", "nested-siblings", "cousins"}
-CONSTANT IStyles = {"from", "mod", "mixed", "alias"}
+CONSTANT IStyles = {"from", "mod", "mixed"}
 INIT Init
 NEXT Next
 INVARIANTS ResolvesRight PubExactly PositiveLinks NegativeBreaks Emit
